@@ -1256,7 +1256,11 @@ pub fn group_files(config: &GroupConfig, log: &dyn Log) -> Result<Vec<FileGroup<
             if !ctx.config.skip_content_hash {
                 group_by_contents(&ctx, prefix_len, suffix_groups)
             } else {
+                // the earlier stages filter the groups permissively
                 suffix_groups
+                    .into_iter()
+                    .filter(|g| g.matches_strictly(&ctx.group_filter))
+                    .collect()
             }
         }
     };
